@@ -43,6 +43,21 @@ CHECKS = {
          "Histories of all link operations issued from either side (plain and ref-counted collections), entity creates/deletes and links to missing entities; after every transaction GetLinks, IterateLinks, IsLinked, GetLinkCount(s) and the raw buckets of both sides must equal the model and each other. SetLinks is additionally enumerated over every current set x every requested list (with duplicates, any order) of a small universe.",
          "Negative counts not generated. Trusts the model.",
          "DESIGN.md §3 C05"),
+ "C06": (True, "exploration",
+         "stateful property-based testing (rapid) over a kitchen-sink schema; oracle = whole-file traversal for any occurrence of the deleted id (independent walker + boltz.ValidateDeleted) and model equality after re-creation",
+         "Histories over stores combining unique, nullable-unique, set and fk indexes, fk constraints with cascade, plain and ref-counted links and a child store end with the delete of a chosen entity and the re-creation of the same id. After the delete commits the id must not occur anywhere in the file in any encoding; after re-creation all model invariants must hold for the fresh entity. The histogram reports which attachment kinds the victim had.",
+         "Ids are disjoint from field values (otherwise an occurrence would be ambiguous). Trusts the model.",
+         "DESIGN.md §3 C06"),
+ "C15": (True, "exploration",
+         "stateful property-based testing (rapid): model of (parent part, optional child part) per id, operations routed through either store, plain and extended child stores",
+         "After every transaction of a generated history the populations returned by FindById / LoadById / QueryIds / IterateIds / IterateValidIds / IsEntityPresent through both stores, the shared and child-only fields, and the parent's unique and set indexes are compared with the model; parent constraints must reject child creates; a committed delete through either store must leave no occurrence of the id in the file.",
+         "Uses a mapper that routes by IsEntityPresent and copies the written shared fields. Three unspecified operation shapes are skipped (listed in the evidence assumptions).",
+         "DESIGN.md §3 C15"),
+ "C16": (True, "exploration",
+         "stateful property-based testing (rapid): model with the system flag fixed at creation, transactions in ordinary or system contexts",
+         "Every generated operation's acceptance is predicted from (entity flag at creation, context kind); refusals must leave the dump unchanged, all other operations must succeed, and the stored flag of every entity must equal its creation flag after every transaction, including after updates that try to flip it from either context.",
+         "Trusts the model; single store with the enforcement constraint plus a unique index.",
+         "DESIGN.md §3 C16"),
  "C10": (True, "exploration",
          "property-based testing and fuzzing: grammar sentences with free operand types, token-level mutants, bounded-exhaustive token strings, random runes, foreign-character injections (rapid); native coverage-guided go fuzzing in the thorough tier; oracle = recover-guarded totality + independent rejection rule",
          "Every generated input is pushed through ast.Parse (bolt and in-memory symbol tables), and every query that parses is evaluated through QueryIds, IterateIds, in-memory EvalBool, ValidateSymbolsArePublic and ObjectStore.QueryEntities over an empty store, all-null rows and a rich dataset, all under recover: a panic, or a result that is neither exactly a query nor exactly an error, is a violation. Independently of the parser, a well-typed sentence with one character that occurs in no lexer rule inserted at a token boundary must be rejected. All token strings of length <= 3 (quick) / <= 4 (thorough) over a 41-token alphabet are enumerated.",
